@@ -136,3 +136,149 @@ fn canary_every_ipv4_is_global() {
     let raw: u32 = kani::any();
     assert!(ipv4_global::is_global(Ipv4Addr::from(raw)));
 }
+
+// ---- Transport::dial on the real Multiaddr ---------------------------------
+// The body of `dial` is extracted verbatim on every run (tracing macros dropped:
+// Kani 0.68 ICEs on their formatting machinery) into `Transport::verif_dial`.
+include!(concat!(env!("LIBP2P_VERIF_GEN"), "/C22/dial_fragment.rs"));
+
+#[derive(Debug)]
+pub(crate) struct MockErr;
+impl std::fmt::Display for MockErr {
+    fn fmt(&self, _: &mut std::fmt::Formatter<'_>) -> std::fmt::Result {
+        Ok(())
+    }
+}
+impl std::error::Error for MockErr {}
+
+pub(crate) struct MockInner {
+    pub(crate) dialed: bool,
+}
+
+impl crate::Transport for MockInner {
+    type Output = ();
+    type Error = MockErr;
+    type ListenerUpgrade = std::future::Ready<Result<(), MockErr>>;
+    type Dial = std::future::Ready<Result<(), MockErr>>;
+
+    fn listen_on(&mut self, _: ListenerId, _: Multiaddr) -> Result<(), TransportError<Self::Error>> {
+        Ok(())
+    }
+    fn remove_listener(&mut self, _: ListenerId) -> bool {
+        false
+    }
+    fn dial(&mut self, _: Multiaddr, _: DialOpts) -> Result<Self::Dial, TransportError<Self::Error>> {
+        self.dialed = true;
+        Ok(std::future::ready(Ok(())))
+    }
+    fn poll(self: Pin<&mut Self>, _: &mut Context<'_>) -> Poll<TransportEvent<Self::ListenerUpgrade, Self::Error>> {
+        Poll::Pending
+    }
+}
+
+fn opts() -> DialOpts {
+    DialOpts {
+        role: crate::Endpoint::Dialer,
+        port_use: crate::transport::PortUse::Reuse,
+    }
+}
+
+/// dial(/ip4/<any>/tcp/<any>): inner transport reached iff the IP is allowed.
+#[kani::proof]
+#[kani::unwind(12)]
+fn dial_ip4_symbolic() {
+    let raw: u32 = kani::any();
+    let port: u16 = kani::any();
+    let addr = Multiaddr::empty()
+        .with(Protocol::Ip4(Ipv4Addr::from(raw)))
+        .with(Protocol::Tcp(port));
+    let mut t = Transport::new(MockInner { dialed: false });
+    let r = t.verif_dial(addr, opts());
+    if spec4_not_global(raw) {
+        assert!(!t.inner.dialed);
+        assert!(matches!(r, Err(TransportError::MultiaddrNotSupported(_))));
+    } else if !spec4_either(raw) {
+        assert!(t.inner.dialed);
+        assert!(r.is_ok());
+    }
+}
+
+/// dial(/ip6/<any>/udp/<any>/quic-v1)
+#[kani::proof]
+#[kani::unwind(20)]
+fn dial_ip6_symbolic() {
+    let raw: u128 = kani::any();
+    let port: u16 = kani::any();
+    let addr = Multiaddr::empty()
+        .with(Protocol::Ip6(Ipv6Addr::from(raw)))
+        .with(Protocol::Udp(port))
+        .with(Protocol::QuicV1);
+    let mut t = Transport::new(MockInner { dialed: false });
+    let r = t.verif_dial(addr, opts());
+    if spec6_not_global(raw) {
+        assert!(!t.inner.dialed);
+        assert!(matches!(r, Err(TransportError::MultiaddrNotSupported(_))));
+    } else if !spec6_either(raw) {
+        assert!(t.inner.dialed);
+        assert!(r.is_ok());
+    }
+}
+
+/// Only the *leading* component decides: a non-IP first component is refused
+/// whatever follows (here a globally reachable IP), and the empty address is
+/// refused.
+fn refused_with_first(first: Protocol<'static>) {
+    let addr = Multiaddr::empty()
+        .with(first)
+        .with(Protocol::Ip4(Ipv4Addr::new(8, 8, 8, 8)));
+    let mut t = Transport::new(MockInner { dialed: false });
+    let r = t.verif_dial(addr, opts());
+    assert!(!t.inner.dialed);
+    assert!(matches!(r, Err(TransportError::MultiaddrNotSupported(_))));
+}
+
+#[kani::proof]
+#[kani::unwind(20)]
+fn dial_refuses_tcp_first() {
+    refused_with_first(Protocol::Tcp(kani::any()));
+}
+
+#[kani::proof]
+#[kani::unwind(20)]
+fn dial_refuses_udp_first() {
+    refused_with_first(Protocol::Udp(kani::any()));
+}
+
+#[kani::proof]
+#[kani::unwind(20)]
+fn dial_refuses_circuit_first() {
+    refused_with_first(Protocol::P2pCircuit);
+}
+
+#[kani::proof]
+#[kani::unwind(20)]
+fn dial_refuses_empty() {
+    let mut t2 = Transport::new(MockInner { dialed: false });
+    let r2 = t2.verif_dial(Multiaddr::empty(), opts());
+    assert!(!t2.inner.dialed);
+    assert!(matches!(r2, Err(TransportError::MultiaddrNotSupported(_))));
+}
+
+/// A private leading IP is refused even when a global IP follows, and a global
+/// leading IP is dialled even when a private one follows.
+#[kani::proof]
+#[kani::unwind(20)]
+fn dial_only_leading_ip_counts() {
+    let a: u32 = kani::any();
+    let b: u32 = kani::any();
+    kani::assume(spec4_not_global(a));
+    kani::assume(!spec4_not_global(b) && !spec4_either(b));
+    let addr = Multiaddr::empty().with(Protocol::Ip4(Ipv4Addr::from(a))).with(Protocol::Ip4(Ipv4Addr::from(b)));
+    let mut t = Transport::new(MockInner { dialed: false });
+    assert!(t.verif_dial(addr, opts()).is_err());
+    assert!(!t.inner.dialed);
+    let addr = Multiaddr::empty().with(Protocol::Ip4(Ipv4Addr::from(b))).with(Protocol::Ip4(Ipv4Addr::from(a)));
+    let mut t = Transport::new(MockInner { dialed: false });
+    assert!(t.verif_dial(addr, opts()).is_ok());
+    assert!(t.inner.dialed);
+}
